@@ -353,6 +353,7 @@ class World:
                 self.nodes.append((n, self.node_tok(n, is_root and n is root)))
         self.atoms = self.make_atoms()   # (python value, 'a <cls>')
         self.funcs = []                  # (python function item, token)
+        self.func_src = []               # (source expression, signature ASTs) of the same items
         self.func_skipped = 0
 
     # ---- nodes
@@ -443,6 +444,7 @@ class World:
             self.func_skipped += 1
             return False
         self.funcs.append((f, f'f {len(asts) - 1} ' + ' '.join(tok(a) for a in asts), asts))
+        self.func_src.append((src, asts))
         return True
 
     # ---- random values
@@ -840,6 +842,248 @@ def laws_of_real_relation(run: Run, W: World, types, values, tag_check=True):
                         sound_viol += 1
 
 
+
+# =============================================================================== judgement histories
+HIST_SAFE_LEAVES = ('item', 'node', 'a', 'num')
+
+
+def hist_safe(ty) -> bool:
+    return ty[0] == 'E' or (ty[0] == 'L' and ty[1][0] in HIST_SAFE_LEAVES)
+
+
+def hist_variant(G: TyGen, ty, rng):
+    """perturb atomic names / occurrence only (keeps the type inside what the parser accepts)"""
+    if ty[0] != 'L':
+        return ty
+    leaf, o = ty[1], ty[2]
+    if leaf[0] == 'a' and rng.random() < 0.6:
+        rows = G.L.sub_rows()
+        a = leaf[1]
+        leaf = ('a', rng.choice([x for x in rows[a] + [i for i, row in enumerate(rows) if a in row]
+                                 if x not in G.L.xsd11_only] or [a]))
+    elif rng.random() < 0.1:
+        leaf = ('item',)
+    if rng.random() < 0.2:
+        o = G.occ()
+    return ('L', leaf, o)
+
+
+def gen_history(W: World, G: TyGen, rng, bases):
+    """ops on a pool of function items: ('j', kind, i, ty) / ('p', i, mask); item 0 is the base item"""
+    src, asts = rng.choice(bases)
+    impl = [(list(asts[:-1]), asts[-1])]        # signature as the code computes it: first `arity` parameters
+    spec = [(list(asts[:-1]), asts[-1])]        # signature per XPath: parameters at the placeholders
+    parent = [None]
+    ops = []
+    for _ in range(rng.randint(3, 9)):
+        cands = [i for i, (a, _) in enumerate(impl) if len(a) >= 1]
+        if cands and rng.random() < 0.35 and len(impl) < 5:
+            i = rng.choice(cands)
+            n = len(impl[i][0])
+            r = rng.random()
+            if r < 0.45:                           # placeholders first (the common spelling f(?, 1, 2))
+                k = rng.randint(1, n)
+                mask = [True] * k + [False] * (n - k)
+            else:
+                mask = [rng.random() < 0.5 for _ in range(n)]
+                if not any(mask):
+                    mask[rng.randrange(n)] = True
+            ops.append(('p', i, mask))
+            k = sum(mask)
+            impl.append((impl[i][0][:k], impl[i][1]))
+            sa = spec[i][0]
+            spec.append(([sa[j] for j, m in enumerate(mask) if m and j < len(sa)], spec[i][1]))
+            parent.append((i, mask))
+        else:
+            i = rng.randrange(len(impl))
+            r = rng.random()
+            if r < 0.30:
+                a, ret = impl[i]
+            elif r < 0.50:
+                a, ret = spec[i]
+            elif r < 0.62:
+                a, ret = impl[0]
+            elif r < 0.70:
+                ty = ('L', ('fany',), '1')
+                a = None
+            else:
+                a, ret = rng.choice(impl + spec)
+                a = [hist_variant(G, x, rng) for x in a]
+                ret = hist_variant(G, ret, rng)
+            if a is not None:
+                ty = ('F', list(a), ret)
+            ops.append(('j', rng.choice(['jm', 'ji', 'jt']), i, ty))
+    return src, asts, ops, parent
+
+
+def hist_partial_expr(mask) -> str:
+    return '$f(' + ', '.join('?' if m else '1' for m in mask) + ')'
+
+
+def run_history_impl(W: World, src, ops, xsd11=0):
+    """the history on ONE base function item (one token), answers in order; None for partial applications"""
+    ctx = lambda **kw: W.XPathContext(W.root1, **kw)   # noqa: E731
+    P = W.parsers[xsd11]
+
+    def base():
+        f = P.parse(src).evaluate(ctx())
+        return f[0] if isinstance(f, list) else f
+
+    def partial(f, mask):
+        g = P.parse(hist_partial_expr(mask)).evaluate(ctx(variables={'f': f}))
+        return g[0] if isinstance(g, list) and len(g) == 1 else g
+
+    def judge(kind, item, ty):
+        text = render(ty)
+        if kind == 'jm':
+            return impl_match(W, [item], text, xsd11)
+        if kind == 'ji':
+            return impl_instance(W, [item], text, xsd11)
+        return impl_treat(W, [item], text, xsd11)
+    out, fresh = [], []
+    try:
+        pool = [base()]
+    except Exception as e:
+        return None, None, err_text(e)
+    parent = [None]
+    for op in ops:
+        if op[0] == 'p':
+            try:
+                pool.append(partial(pool[op[1]], op[2]))
+            except Exception as e:
+                return None, None, err_text(e)
+            parent.append((op[1], op[2]))
+            out.append(None)
+            fresh.append(None)
+        else:
+            _, kind, i, ty = op
+            out.append(judge(kind, pool[i], ty))
+
+            def rebuild(j):                     # a fresh item with the same derivation and no judgement history
+                return base() if parent[j] is None else partial(rebuild(parent[j][0]), parent[j][1])
+            try:
+                fresh.append(judge(kind, rebuild(i), ty))
+            except Exception as e:
+                fresh.append(err_text(e))
+    return out, fresh, None
+
+
+def history_line(asts, ops, xsd11=0, inline=False) -> str:
+    base = f'1 f {len(asts) - 1} ' + ' '.join(tok(a) for a in asts)
+    parts = []
+    for op in ops:
+        if op[0] == 'p':
+            parts.append(f'p {op[1]} {len(op[2])} ' + ' '.join('1' if m else '0' for m in op[2]))
+        else:
+            parts.append(f'{op[1]} {op[2]} {tok(op[3])}')
+    return f'H|{xsd11}|{1 if inline else 0}|{base}|' + ';'.join(parts)
+
+
+def single_expression(src, ops, parent_of):
+    """the `instance of` judgements of the history as ONE XPath expression on one bound item:
+    let $f := <src> return (j1, j2, ...); partial applications are spelled where they are judged"""
+    exprs = ['$f']
+    for op in ops:
+        if op[0] == 'p':
+            exprs.append('(' + exprs[op[1]] + ')(' + ', '.join('?' if m else '1' for m in op[2]) + ')')
+    js = [(k, op) for k, op in enumerate(ops) if op[0] == 'j']
+    body = ', '.join(f'(({exprs[op[2]]}) instance of {render(op[3])})' for _, op in js)
+    return f'let $f := {src} return ({body})', [k for k, _ in js]
+
+
+def histories(run: Run, W: World, G: TyGen):
+    st = run.stats
+    rng = run.rng
+    bases = [(src, asts) for src, asts in W.func_src
+             if 2 <= len(asts) - 1 <= 4 and all(hist_safe(a) and not mentions(a, set(live().xsd11_only)) for a in asts)]
+    for src in ('substring#3', 'concat#3', 'replace#3', 'translate#3', 'contains#2', 'starts-with#2',
+                'subsequence#3', 'insert-before#3', 'math:pow#2', 'string-join#2', 'substring-after#2', 'tokenize#2'):
+        n0 = len(W.func_src)
+        if W.add_func_expr(src) and all(hist_safe(a) for a in W.func_src[-1][1]):
+            bases.append(W.func_src[-1])
+        del W.funcs[n0:], W.func_src[n0:]          # keep the value pool of the other passes unchanged
+    if not bases:
+        run.broken.append('histories: no base function item')
+        return
+    hs = [gen_history(W, G, rng, bases) for _ in range(run.scale(400, 4000))]
+    # seed history (the order of operations that a signature cache on the token gets wrong)
+    sub3 = next(((s_, a) for s_, a in bases if s_ == 'substring#3'), None)
+    if sub3:
+        t3 = ('F', list(sub3[1][:-1]), sub3[1][-1])
+        t1 = ('F', [sub3[1][0]], sub3[1][-1])
+        for kind in ('ji', 'jt', 'jm'):
+            hs.insert(0, (sub3[0], sub3[1], [('j', kind, 0, t3), ('p', 0, [True, False, False]), ('j', kind, 1, t1),
+                                             ('j', kind, 1, t3), ('j', kind, 0, t3)], None))
+    lines = [history_line(asts, ops, inline=src.startswith('function(')) for src, asts, ops, _ in hs]
+    answers = run.driver('C18', lines)
+    for (src, asts, ops, _), line, ans in zip(hs, lines, answers):
+        if not ans.startswith('hist='):
+            run.disagree(Disagreement(line, 'driver:' + ans, what='protocol'))
+            continue
+        entries = ans[5:].split(';') if ans[5:] else []
+        got, fresh, err = run_history_impl(W, src, ops)
+        st.case({'h': line}, nontrivial=True)
+        st.count('history')
+        if err is not None:
+            run.disagree(Disagreement({'history': line, 'source': src}, err, 'ok', None, what='history-setup',
+                                      site='partial application'))
+            continue
+        seen_partial = False
+        for k, (op, e) in enumerate(zip(ops, entries)):
+            if op[0] == 'p':
+                seen_partial = True
+                st.count('history:partial-application' + ('' if all(op[2][:sum(op[2])]) else ':non-prefix'))
+                continue
+            model, spec, q, r = e.split('/')
+            st.count('history:judgement' + (':after-partial' if seen_partial else '') + (':derived-item' if op[2] else ''))
+            case = {'source': src, 'history': [describe_op(o) for o in ops[:k + 1]], 'op': describe_op(op)}
+            tags = (['F18q'] if q == '1' else []) + (['F18r'] if r == '1' else [])
+            if r == '1':
+                # aliasing of the argument list of an inline function (finding F18r): the model of the typing
+                # is not claimed for this item; a wrong answer is the finding
+                st.count('history:F18r-region')
+                if got[k] != spec:
+                    run.disagree(Disagreement(case, got[k], None, spec, what='history-judgement',
+                                              site='_xpath30_operators: func = copy(func); func[:] = tokens', tags=tags))
+                continue
+            if got[k] != model or got[k] != spec:
+                run.disagree(Disagreement(case, got[k], model, spec, what='history-judgement',
+                                          site='XPathFunction.match_function_test', tags=tags))
+            if got[k] != fresh[k]:
+                # the same single judgement on a fresh item with the same derivation answers differently
+                run.disagree(Disagreement(dict(case, fresh=fresh[k]), got[k], None, fresh[k], what='history-dependence',
+                                          site='XPathFunction (state kept on the token)', tags=[]))
+        # the same judgements inside one expression on one bound item
+        expr, idx = single_expression(src, ops, None)
+        if idx:
+            try:
+                res = W.P.parse(expr).evaluate(W.XPathContext(W.root1))
+                res = res if isinstance(res, list) else [res]
+                res = ['T' if r is True else 'F' if r is False else f'?{r!r}' for r in res]
+            except Exception as ex:
+                res = [err_text(ex)] * len(idx)
+            st.count('history:single-expression')
+            for r, k in zip(res, idx):
+                model, spec, q, fr = entries[k].split('/')
+                tags = (['F18q'] if q == '1' else []) + (['F18r'] if fr == '1' else [])
+                if fr == '1':
+                    if r != spec:
+                        run.disagree(Disagreement({'expression': expr, 'judgement': describe_op(ops[k])}, r, None, spec,
+                                                  what='history-single-expression', site='partial application', tags=tags))
+                    continue
+                if r != model or r != spec:
+                    run.disagree(Disagreement({'expression': expr, 'judgement': describe_op(ops[k])}, r, model, spec,
+                                              what='history-single-expression', site='XPathFunction.match_function_test',
+                                              tags=tags))
+
+
+def describe_op(op) -> str:
+    if op[0] == 'p':
+        return f'item{op[1]}(' + ', '.join('?' if m else '1' for m in op[2]) + ') -> new item'
+    kind = {'jm': 'match_sequence_type', 'ji': 'instance of', 'jt': 'treat as'}[op[1]]
+    return f'item{op[2]} {kind} {render(op[3])}'
+
+
 # =============================================================================== signatures (exploration)
 def signatures(run: Run, W: World):
     """every registered signature: parse it into the AST (is it inside the model's language?), and where
@@ -1014,6 +1258,7 @@ def correspond(run: Run):
     types += [G.variant(t) for t in types[:40]]
     values = [W.gen_seq() for _ in range(run.scale(60, 200))] + [([], '0')]
     laws_of_real_relation(run, W, types, values)
+    histories(run, W, G)
     signatures(run, W)
     run.stats.rule = ('judgement = (sequence type AST rendered with random spacing, value of length 0..3 built from '
                       'atomic values of every value class with a sample, nodes of every kind from two documents, '
@@ -1191,7 +1436,7 @@ def body(run: Run) -> int:
                         'element / attribute / PI names without namespaces; no schema (type annotations xs:untyped / xs:untypedAtomic)',
                         'documents with exactly one element child',
                         'typed function tests whose argument types contain a typed function or map test are outside the model (string splitting), explored on the real code only']
-    run.prove(['EPV.Props.C18', 'EPV.Props.C18Tables'], ['EPV.Spec.XPathTypes', 'EPV.Gen.C18Tables', 'EPV.Lemmas.SeqTypeSpec'])
+    run.prove(['EPV.Props.C18', 'EPV.Props.C18Tables'], ['EPV.Spec.XPathTypes', 'EPV.Gen.C18Tables', 'EPV.Lemmas.SeqTypeSpec', 'EPV.Lemmas.SeqTypeHist'])
     try:
         correspond(run)
     except DriverError as e:
